@@ -3,5 +3,15 @@ package types
 import clienttypes "github.com/teleport-network/teleport/x/xibc/core/client/types"
 
 func c08Client(head clienttypes.Height, contract []byte) ClientState {
-	return ClientState{Header: Header{Height: head}, ContractAddress: contract, Epoch: rtU64("epoch"), BlockInteval: rtU64("blockInterval")}
+	// 1..2 validators: the confirmation depth depends on the size of the set (even and odd sizes)
+	var vals [][]byte
+	n := rtIntRange("validators", 1, 2)
+	for i := 0; i < n; i++ {
+		vals = append(vals, rtBytesN("validator", 20))
+	}
+	return ClientState{Header: Header{Height: head}, ContractAddress: contract, Epoch: rtU64("epoch"), BlockInteval: rtU64("blockInterval"), Validators: vals}
 }
+
+// c08RequiredConfirmations: the property's own statement of the confirmation depth of a BSC proof - a strict majority of the
+// validator set must have sealed on top of the proof height (floor(N/2) + 1 blocks), written here independently of GetDelayBlock.
+func c08RequiredConfirmations(cs ClientState) uint64 { return uint64(len(cs.Validators))/2 + 1 }
